@@ -368,9 +368,29 @@ def r6(ctx, facts):
     c17_r7(ctx, facts)
 
 
+def r7(ctx, facts):
+    """rows are decoded with the metadata that came WITH them: the cached metadata of the prepared statement stands in only when
+    the response carries none (the server honoured skip-metadata). A server that sends metadata anyway - stale cache after
+    ALTER TABLE, a proxy ignoring the flag - is believed (seed C14-k: the frame's metadata was parsed and then dropped)."""
+    from ..util import dj_of
+    r = ctx.rule("R7", "deserialize_metadata uses the cached result metadata only for a response that carries no metadata", floor=1)
+    b = facts.one(r"^scylla_cql::frame::response::result::RawMetadataAndRawRows::<'frame>::deserialize_metadata$|^scylla_cql::frame::response::result::RawMetadataAndRawRows::deserialize_metadata$")
+    dj = dj_of(b, facts)
+    nm = [c for bb, c in b.calls() if bb in b.live_blocks and (c.name or c.decl or "").split("::")[-1] == "no_metadata"]
+    sites = [(bb, st) for bb in sorted(b.live_blocks) for st in b.stmts(bb)
+             if st[0] == "A" and st[2][0] == "agg" and st[2][1][0] == "adt" and st[2][1][1].endswith("ResultMetadataHolder") and st[2][1][2] == "SharedCached"]
+    if not sites or not nm:
+        raise AnchorLost("deserialize_metadata: SharedCached construction / no_metadata() test not found (%d/%d)" % (len(sites), len(nm)))
+    for k, (bb, st) in enumerate(sites):
+        bad = [s_ for s_ in dj.states_at(bb) if not any(in_set(s_.get(("call", c.bb)), {1}) for c in nm)]
+        r.instance("cached-metadata-only-without-sent-metadata#%d" % k, not bad,
+                   "the cached metadata is chosen in a state where the response is not known to come without metadata: columns the server "
+                   "described in this very response are ignored and the rows are decoded against the cache", b.stmt_span(st))
+
+
 def check(ctx):
     facts = inline_view(ctx.facts("default"))
-    for fn in (r1, r2_r3, r2_batch, r4, r5, r6):
+    for fn in (r1, r2_r3, r2_batch, r4, r5, r6, r7):
         try:
             fn(ctx, facts)
         except AnchorLost as ex:
